@@ -1,6 +1,7 @@
 package props
 
 import (
+	"fmt"
 	"go/token"
 	"go/types"
 
@@ -797,6 +798,36 @@ func packSizeEveryMember(r *core.Run, rule string) {
 			where = last.Instrs[len(last.Instrs)-1].Pos()
 		}
 	})
+	// ... and the size is parsed at a width that holds every size a server may announce (up to 65535)
+	for _, b := range hsp.Blocks {
+		for _, in := range b.Instrs {
+			st, ok := in.(*ssa.Store)
+			if !ok {
+				continue
+			}
+			fa, ok := st.Addr.(*ssa.FieldAddr)
+			if !ok || core.FieldOfAddr(fa) != fPS {
+				continue
+			}
+			why := "Conn.packetSize is set from " + core.Expr(st.Val) + ", not from the parsed new value of the member"
+			if ex, isEx := core.Strip(st.Val).(*ssa.Extract); isEx && ex.Index == 0 {
+				if call, isC := ex.Tuple.(*ssa.Call); isC {
+					switch {
+					case core.IsPkgFunc(call, "strconv", "Atoi"):
+						why = ""
+					case core.IsPkgFunc(call, "strconv", "ParseInt"), core.IsPkgFunc(call, "strconv", "ParseUint"):
+						bits, isK := core.ConstInt64(call.Call.Args[2])
+						if isK && (bits == 0 || bits >= 32 || (bits >= 17) || (bits == 16 && core.IsPkgFunc(call, "strconv", "ParseUint"))) {
+							why = ""
+						} else {
+							why = fmt.Sprintf("the announced packet size is parsed as a %d-bit number: sizes a server may announce (up to 65024) are rejected as out of range and Login fails on a valid acceptance", bits)
+						}
+					}
+				}
+			}
+			r.Check(why == "", rule, "handleSpecialPackage: the announced size is parsed at full width", st.Pos(), "strconv.Atoi(member.NewValue)", why)
+		}
+	}
 	r.Check(applied, rule, "handleSpecialPackage: a PACKSIZE member sets Conn.packetSize or fails", test.Pos(), "every path from the PACKSIZE test to the next member stores Conn.packetSize or returns an error", "a PACKSIZE member can be handled without Conn.packetSize being set and without an error ("+p.Pos(where)+"): the size the server announced is not the size in force, packets are built larger than the server accepts")
 }
 
